@@ -81,6 +81,7 @@ SKEL = {
     "tablerow_cols": "{% tablerow i in xs cols: 2 %}{{ i }}{{ tablerowloop.col }}{% endtablerow %}",
     "tablerow_args": "{% tablerow i in xs cols: x limit: 2 offset: y %}{{ i }}{{ tablerowloop.col_last }}{% endtablerow %}",
     "tablerow_break": "{% tablerow i in xs %}{% if i == x %}{% break %}{% endif %}{{ i }}{% endtablerow %}",
+    "tablerow_cols_break": "{% tablerow i in xs cols: 2 %}{{ i }}{% if i == x %}{% break %}{% endif %}{% if i == y %}{% continue %}{% endif %}{{ tablerowloop.col_last }}{% endtablerow %}|{% tablerow i in xs cols: 1 limit: 3 %}{% if i == y %}{% break %}{% endif %}{% endtablerow %}",
     # stateful tags
     "capture": "{% capture c %}{{ x }}-{{ y }}{% endcapture %}[{{ c }}]{{ c | size }}",
     "cycle": "{% for i in xs %}{% cycle x, y, 'c' %}{% cycle 'g': 1, 2 %}{% cycle z: 'p', 'q' %}{% endfor %}",
@@ -176,7 +177,7 @@ def _mk_render_str(kind):
 
 CONDITIONS = []
 _QUICK = {"out_bracket_root", "out_nested_path", "out_filters", "out_ternary", "if_chain", "if_ops", "unless_chain", "case_when", "for_args",
-          "for_continue", "for_break", "tablerow_args", "capture", "cycle", "ifchanged", "liquid_tag", "include_with_for", "include_dir_name",
+          "for_continue", "for_break", "tablerow_args", "tablerow_cols_break", "capture", "cycle", "ifchanged", "liquid_tag", "include_with_for", "include_dir_name",
           "include_break", "render_with_for", "render_dir_name", "render_missing", "extends_chain", "macro_call", "with_tag", "snippet",
           "include_name_clash", "render_name_clash", "with_macro_name_clash", "translate", "counters", "block_standalone", "render_error_inside", "if_lt", "if_all_ops", "if_contains", "out_range", "gettext_filters"}
 _QUICK_STR = {"out_bracket_root", "out_filters", "out_string_ops", "if_contains", "if_empty_blank", "case_when", "for_hash_string", "include_with_for",
